@@ -575,6 +575,41 @@ class C19(Prop):
                 fails += 1
                 ctx.violations.append({"op": f"cargo check --no-default-features --features '{cfg[0]}'", "profile": "check",
                                        "oracle": "FAIL C19 does not build: " + err[-600:]})
+        # the resolved dependency graph of selections without the crate's std feature: no run-time dependency may be
+        # compiled with its own `std` / `alloc` feature (the host has std, so a host build cannot show it)
+        for feat in ["", singles[0], "serde", singles[-1] + ",serde", "all_msgs"]:
+            cmd = ["cargo", "metadata", "--format-version", "1", "--offline", "--no-default-features", "--manifest-path", os.path.join(ctx.repo, "Cargo.toml")]
+            if feat:
+                cmd += ["--features", feat]
+            pm = subprocess.run(cmd, stdout=subprocess.PIPE, stderr=subprocess.PIPE, env=env)
+            classes["dependency-features"] = classes.get("dependency-features", 0) + 1
+            if pm.returncode != 0:
+                fails += 1
+                ctx.violations.append({"op": " ".join(cmd[1:]), "profile": "metadata", "oracle": "FAIL C19 cargo metadata: " + pm.stderr.decode(errors="replace")[-300:]})
+                continue
+            md = json.loads(pm.stdout)
+            pk = {p_["id"]: p_ for p_ in md["packages"]}
+            nodes = {n_["id"]: n_ for n_ in md["resolve"]["nodes"]}
+            root = md["resolve"]["root"]
+            seen, todo = set(), [root]
+            while todo:
+                cur = todo.pop()
+                if cur in seen:
+                    continue
+                seen.add(cur)
+                if any("proc-macro" in t_["kind"] for t_ in pk[cur]["targets"]):
+                    continue            # runs on the build host
+                for dep in nodes[cur]["deps"]:
+                    if any(k_["kind"] is None for k_ in dep["dep_kinds"]):
+                        todo.append(dep["pkg"])
+            for pid in seen:
+                if pid == root or any("proc-macro" in t_["kind"] for t_ in pk[pid]["targets"]):
+                    continue
+                bad = [f_ for f_ in nodes[pid]["features"] if f_ in ("std", "alloc")]
+                if bad:
+                    fails += 1
+                    ctx.violations.append({"op": "cargo metadata --no-default-features --features '%s'" % feat, "profile": "metadata",
+                                           "oracle": "FAIL C19 dependency %s is compiled with feature %s although the crate's std feature is off: the selection cannot build for a target without std" % (pk[pid]["name"], ",".join(bad))})
         # per-feature decode drivers
         drv = FeatDriver(ctx, sch)
         # rows whose feature, module and number do not name the same message are always exercised
